@@ -213,12 +213,13 @@ end dict
 /-! ### the automaton of a table with space-free keys and no aliases -/
 
 /-- what the model assumes about letter classes here: the keyword spellings are single words that fold
-    to themselves, folding a word never produces a parenthesis, and a parenthesis is not a blank
-    (true of Python's `str.lower` and `\s`) -/
+    to themselves, folding a word never produces a parenthesis, a parenthesis is not a blank and
+    U+0020 is one (true of Python's `str.lower` and `\s`) -/
 structure ClsOK (c : Cls) : Prop where
   kw : ∀ k ∈ KEYWORDS, wordsOf c k.spelling = [k.spelling]
   noParen : ∀ x, kindOf c x = .word → LPAR ∉ c.lower x ∧ RPAR ∉ c.lower x
   parenNotSpace : c.isSpace LPAR = false ∧ c.isSpace RPAR = false
+  space : c.isSpace SPACE = true
 
 /-- the premise of C18 on the table: no aliases, every key one word (no whitespace, no parentheses),
     no key an operator word -/
